@@ -253,7 +253,8 @@ let run_case (full : bool) (c : case) : unit =
   let d : Iface.dstate option ref = ref None in
   let dc = ref None in
   Buffer.add_string out (Printf.sprintf "case %s\n" c.id);
-  L.iteri (fun i t ->
+  let stop = ref false in
+  L.iteri (fun i t -> if not !stop then begin
       let fault = match c.fault with Some (oi, k) when oi = i -> Some (n_of_int k) | _ -> None in
       let res, evs =
         if t = ["new"] then begin
@@ -269,7 +270,8 @@ let run_case (full : bool) (c : case) : unit =
       in
       if c.scribble then scribble i;
       Buffer.add_string out (Printf.sprintf "op %d %s\n" i (L.hd t));
-      dc := print_events out evs !dc full;
+      if res = Run.CRDiverged then begin stop := true; Buffer.add_string out "= DIVERGED\n" end else begin
+      let t1 = Sys.time () in dc := print_events out evs !dc full; if Sys.getenv_opt "EPD_PROF" <> None then prerr_endline (Printf.sprintf "print %.3f" (Sys.time () -. t1));
       Buffer.add_string out
         (match res with
          | Run.CROk Iface.RUnit -> "= OK\n"
@@ -279,7 +281,7 @@ let run_case (full : bool) (c : case) : unit =
          | Run.CRErr -> "= ERR\n"
          | Run.CRPanic -> "= PANIC\n"
          | Run.CRUnsupported -> "= UNSUPPORTED\n"
-         | Run.CRDiverged -> "= DIVERGED\n"))
+         | Run.CRDiverged -> "= DIVERGED\n") end end)
     c.ops;
   Buffer.add_string out "end\n";
   print_string (Buffer.contents out)
